@@ -34,8 +34,12 @@ ElsClasses  == {"missing", "noniter", "emptyiter", "baditer", "list"}
 NameClasses == Pool \cup {"missing", "bad", "nondict"}
 V1Only == {"tweak_invalid"}                      \* defects that only a version-1 element can have
 V2Only == {"type_missing", "type_unknown"}       \* ... only a version-2 element
-DefectFlds == {"by_missing", "pay_missing", "pay_invalid"} \cup V1Only \cup V2Only
-OddFlds    == {"long", "short", "odd", "extra"}
+\* spell_same / spell_refused: ONE hex-valued field of the item (v1: message, signature, tweak; v2:
+\* message, custom_data, key, auth_data, signature) is written in a non-canonical spelling: a member of
+\* SpellAccepted (the loader reads the same bytes: the item loads, and what loads must survive
+\* save ; load with the same verdicts and values) or of SpellRefused (the loader refuses the document)
+DefectFlds == {"by_missing", "pay_missing", "pay_invalid", "spell_refused"} \cup V1Only \cup V2Only
+OddFlds    == {"long", "short", "odd", "extra", "spell_same"}
 BenignFlds == {"ok"}
 
 VARIABLES flavour, ver, tgtc, elsc, targets, items, iby, linkok, odd,           \* Env
